@@ -416,12 +416,6 @@ class NetworkServiceAccessPoint(ServiceAccessPoint, Server, DebugContents):
         npdu.pduDestination = None
         npdu.npduDADR = apdu.pduDestination
 
-        # we might already be waiting for a path for this network
-        if dnet in self.pending_nets:
-            if _debug: NetworkServiceAccessPoint._debug("    - already waiting for path")
-            self.pending_nets[dnet].append(npdu)
-            return
-
         # look for routing information from the network of one of our
         # adapters to the destination network
         router_info = None
@@ -429,6 +423,13 @@ class NetworkServiceAccessPoint(ServiceAccessPoint, Server, DebugContents):
             router_info = self.router_info_cache.get_router_info(snet, dnet)
             if router_info:
                 break
+
+        # we might already be waiting for a path for this network, the path
+        # might have been learned some other way in the meantime
+        if (not router_info) and (dnet in self.pending_nets):
+            if _debug: NetworkServiceAccessPoint._debug("    - already waiting for path")
+            self.pending_nets[dnet].append(npdu)
+            return
 
         # if there is info, we have a path
         if router_info:
